@@ -232,15 +232,18 @@ pub fn large_cases(ctx: &Ctx) -> Vec<RtCase> {
         }
         v.push(RtCase { l: logical::large(*n, ctx.seed + 77 + k as u64, 2 + (k % 3) as u8), asyncw: k == 1, open_async: false });
     }
+    // (both tiers: a content of 2^24+1 bytes shared by two ids costs a fraction of a second)
     for (k, big) in [1_048_577u32, 16_777_217].iter().enumerate() {
-        if k == 1 && ctx.tier == crate::engine::Tier::Quick {
-            continue;
-        }
         let mut l = logical::large(40, ctx.seed + 90 + k as u64, 1 + (k % 4) as u8);
         l.pool[0] = crate::model::ContentSpec { kind: 0, len: *big, seed: 3 };
         l.tiles[5].1 = 0;
         l.tiles[20].1 = 0;
         v.push(RtCase { l, asyncw: k == 0, open_async: k == 0 });
+    }
+    // uncompressed directories of 6-8 bytes per entry: a sweep of entry counts across the point where the root
+    // stops fitting (around 2000-2700 entries here, 4064 for the 4-byte entries below)
+    for n in (1500usize..=4100).step_by(100) {
+        v.push(RtCase { l: logical::large(n, ctx.seed + n as u64, 1), asyncw: n % 200 == 0, open_async: false });
     }
     for n in [4063usize, 4064, 4065, 4080, 4095, 4096] {
         v.push(RtCase { l: logical::dense(n, ctx.seed + n as u64, 1), asyncw: n % 2 == 0, open_async: false });
